@@ -429,11 +429,21 @@ RunQ(q, data) ==
                      u == IF q.all THEN c ELSE Dedup(c)
                  \* an ORDER BY behind the last branch (q.order, optional) sorts the combined result, the window comes last
                  IN  ArrV(Window(IF UOrder(q) = <<>> THEN u ELSE SortStable(u, UOrder(q)), q.offset, q.limit))
+    ELSE IF q.from.k = "dual" THEN
+        \* FROM dual: the document itself is the one row (the statement's own CTEs are no columns of it); as coded,
+        \* exec runs the select list on it and returns that one OBJECT - a row-scoped subquery over dual therefore
+        \* yields an object, and New + Exec wrap it into a one-row result (TopRun). WHERE / ORDER BY / LIMIT are not
+        \* looked at on this path.
+        LET d == BindCtes(q.with, data) IN
+        IF IsErr(d) THEN Err ELSE Project(q, d, NoMarker(data))
     ELSE
         LET d == BindCtes(q.with, data) IN
         IF IsErr(d) THEN Err ELSE
         LET src == Source(q.from, d) IN
         IF IsErr(src) THEN Err ELSE Pipeline(q, d, src.e)
+
+\* what the caller gets from New + Exec: always an array of rows
+TopRun(q, data) == LET r == RunQ(q, data) IN IF IsObj(r) THEN ArrV(<<r>>) ELSE r
 
 ---------------------------------------------------------------------------
 \* joins: textbook meaning (the operational models of the code's hash join and
